@@ -38,7 +38,7 @@ pub fn wildcard_match(wild: &str, tame: &str) -> bool {
         } else {
             // If the tame string has more characters
 
-            if tame_char != wild_char {
+            if tame_char != wild_char || wild_char == Some('*') {
                 // If the tame character and the wild character do not match, the only way they can be identical is if there
                 //   was previously or is currently a wildcard character
                 // For example, "abcd" matches "abc*" and "a*"
